@@ -204,6 +204,19 @@ theorem asm_fresh_object_characterisation (offsetZero : Bool) :
     aallOps.filter (fun op => (astep a (astep a (afresh a) (.k0 false)).1 op).2.isOk) = aallOps :=
   asm_fresh_aux offsetZero
 
+open Compmech.Lifecycle.Asm in
+/-- What holds for assemblies: with zero laminate offsets on both panels and no foreign connection list ever
+passed (`calc_k0(conn=…)`, `get_k0_conn(conn=…)`), any two histories and any call: if it returns in both, it
+returns the same result.  Every panel stays within the Panel invariant; the cached connection matrix is the
+canonical one. -/
+theorem asm_result_history_independent_partial (a : ADef)
+    (hz : a.d1.offsetZero = true ∧ a.d2.offsetZero = true) (h1 h2 : List AOp) (op : AOp)
+    (o1 : ∀ o ∈ h1, ownConn o = true) (o2 : ∀ o ∈ h2, ownConn o = true) (oo : ownConn op = true)
+    (k1 : (astep a (arunOps a (afresh a) h1) op).2.isOk = true)
+    (k2 : (astep a (arunOps a (afresh a) h2) op).2.isOk = true) :
+    (astep a (arunOps a (afresh a) h1) op).2 = (astep a (arunOps a (afresh a) h2) op).2 :=
+  asm_history_independent_aux a hz h1 h2 op o1 o2 oo k1 k2
+
 /-! ### StiffPanelBay (bay-level `model`, `size`, normalisation of the skin panels' `r`) -/
 open Compmech.Lifecycle.Bay in
 /-- a bay call that returns, returns the token of the call: nothing hidden at bay level enters a result -/
